@@ -17,7 +17,8 @@ RULE = (
     "non-integral FLOAT Constant, Parameter of each kind, str}, with right and wrong arity: the positional call is "
     "accepted exactly when the arity matches and every argument fits its parameter's kind (reference `fits` from "
     "the property text), a rejection is a JaqalError, and the keyword call (keywords in shuffled order) gives an == "
-    "statement whose parameters are in declaration order.  idle: for random gate sets (with prepare/measure) every "
+    "statement whose parameters are in declaration order; a wrong or extra keyword and a mixed positional/keyword "
+    "call are rejected with JaqalError.  idle: for random gate sets (with prepare/measure) every "
     "active gate gets an idle twin with the same parameter list and no used qubits, and inserting idle gates at "
     "random places of an executable program leaves every subcircuit's state vector unchanged.  stretched: for "
     "gate sets of 2-6 gates (different arities; idle gates included) every stretched gate has the parent's "
@@ -137,6 +138,22 @@ def call_case(case):
             for i in range(len(sig)):
                 if r2.parameters[f"a{i}"] is not vals[i]:
                     raise Violation("keyword-call-differs", f"parameter a{i}\n{desc}")
+        # misuse of the keyword form must be rejected with JaqalError
+        if len(sig) >= 1:
+            wrong = dict(kwargs)
+            wrong["nosuch"] = wrong.pop("a0")
+            st3, r3 = guard(gd, what="keyword call with a wrong name", **wrong)
+            if st3 == "ok":
+                raise Violation("bad-keyword-accepted", f"keywords {list(wrong)}\n{desc}")
+            extra = dict(kwargs)
+            extra["nosuch"] = 1
+            st3, r3 = guard(gd, what="keyword call with an extra name", **extra)
+            if st3 == "ok":
+                raise Violation("bad-keyword-accepted", f"keywords {list(extra)}\n{desc}")
+        if len(sig) >= 2:
+            st3, r3 = guard(gd, vals[0], what="mixed positional/keyword call", **{f"a{i}": vals[i] for i in range(1, len(sig))})
+            if st3 == "ok":
+                raise Violation("mixed-call-accepted", desc)
     boundary = any(vc in ("float-integral", "const-float-integral", "float-nonfinite", "param-NONE") for vc in vcs) and len(set(sig)) >= 2
     return {"nontrivial": boundary, "classes": ["arity:%+d" % (len(vcs) - len(sig)), "expect:" + ("accept" if expect else "reject")], "key": repr((sig, vcs, case.get("macro"))), "sample": {"signature": sig, "arguments": vcs, "accepted": expect}}
 
